@@ -216,7 +216,10 @@ func Resolve(p *core.Prog) *Roles {
 		}
 	}
 	sort.Slice(r.Families, func(i, j int) bool { return r.Families[i].Name < r.Families[j].Name })
-	// a family is mutating when one of its functions calls a mutating filesystem function
+	// fallback when the constructor switch below cannot be read: the mutating family is the one whose functions make the
+	// most mutating filesystem calls (a single stray call in the other family does not turn it into a persisting store)
+	nMut := map[*Family]int{}
+	maxMut := 0
 	for _, fn := range p.Funcs("internal/store") {
 		fam := r.FamilyOfFunc(fn)
 		if fam == nil {
@@ -224,9 +227,15 @@ func Resolve(p *core.Prog) *Roles {
 		}
 		an.Calls(fn, func(call ssa.CallInstruction) {
 			if f := an.FuncObj(call); f != nil && f.Pkg() != nil && f.Pkg().Path() == "os" && MutatingOS[f.Name()] && an.RecvNamed(f) == nil {
-				fam.Mutating = true
+				nMut[fam]++
+				if nMut[fam] > maxMut {
+					maxMut = nMut[fam]
+				}
 			}
 		})
+	}
+	for fam, k := range nMut {
+		fam.Mutating = k > 0 && k == maxMut
 	}
 	// the server constructor's switch: which family is built for which configured store type
 	if cp := p.All[r.ConfigPath]; cp != nil {
@@ -261,6 +270,72 @@ func Resolve(p *core.Prog) *Roles {
 					}
 				}
 			})
+		}
+		if resolved < 2 {
+			// the constructors chosen as function values (create = store.NewMem under `storeType == config.StoreMem`, called
+			// later): the guard of the place the constructor is named decides the kind
+			isCtor := func(v ssa.Value) *Family {
+				callee, ok := v.(*ssa.Function)
+				if !ok || core.FuncPkgPath(callee) != r.StorePath {
+					return nil
+				}
+				if callee.Signature.Results().Len() != 1 || an.NamedOf(callee.Signature.Results().At(0).Type()) != r.IStore {
+					return nil
+				}
+				return r.FamilyOfFunc(callee)
+			}
+			kindOf := func(edges []an.Edge) string {
+				for _, g := range edges {
+					x, y, op, ok := an.CmpTest(an.BlockIf(g.From))
+					if !ok || op != token.EQL || g.Succ != 0 {
+						continue
+					}
+					if k, isC := an.ConstInt(y); isC && IsNamed(x.Type(), r.ConfigPath, "Store") {
+						return constName[k]
+					}
+				}
+				return ""
+			}
+			for _, fn := range p.Funcs("") {
+				an.Instrs(fn, func(in ssa.Instruction) {
+					if phi, isPhi := in.(*ssa.Phi); isPhi {
+						for i, ev := range phi.Edges {
+							fam := isCtor(ev)
+							if fam == nil || i >= len(phi.Block().Preds) {
+								continue
+							}
+							pred := phi.Block().Preds[i]
+							edges := an.GuardingEdges(pred)
+							if an.BlockIf(pred) != nil && pred.Succs[0] != pred.Succs[1] {
+								for k, sb := range pred.Succs {
+									if sb == phi.Block() {
+										edges = append(edges, an.Edge{From: pred, Succ: k})
+									}
+								}
+							}
+							if k := kindOf(edges); k != "" && fam.Kind == "" {
+								fam.Kind = k
+								resolved++
+							}
+						}
+						return
+					}
+					if _, isCall := in.(ssa.CallInstruction); isCall {
+						return
+					}
+					for _, op := range in.Operands(nil) {
+						if op == nil || *op == nil {
+							continue
+						}
+						if fam := isCtor(*op); fam != nil && fam.Kind == "" {
+							if k := kindOf(an.GuardingEdges(in.Block())); k != "" {
+								fam.Kind = k
+								resolved++
+							}
+						}
+					}
+				})
+			}
 		}
 		if resolved >= 2 {
 			for _, f := range r.Families {
